@@ -116,6 +116,11 @@ MEM_TB = DMN_TB + ["Spec/MemSpec.v: my transcription of C13/C14 from the propert
                    "mmap(MAP_SHARED) coherence between a memfd's mapping and pread/pwrite on it (kernel)"]
 reg(id="C13", props="Props/C13.v", proof_files=["Proofs/MemProofs.v"], families=[Dmn()], rule=MEM_RULE, trusted_base=MEM_TB, assumptions=DMN_ASSUME)
 reg(id="C14", props="Props/C14.v", proof_files=["Proofs/MemProofs.v"], families=[Dmn()], rule=MEM_RULE, trusted_base=MEM_TB, assumptions=DMN_ASSUME)
+LOG_RULE = (MEM_RULE + " || dirty log: SET_LOG_BASE with windows from too small to ample, non-zero and unaligned offsets, before/after memory-table "
+            "changes; backend writes (write_slice, add_used, 2..16 concurrent writer threads on pages sharing log bytes) at page and region edges; the shared "
+            "log file is read back (touched words, guard bytes before and after the window) and compared with Spec/MemSpec.v's own page-set oracle")
+reg(id="C15", props="Props/C15.v", proof_files=["Proofs/LogProofs.v", "Proofs/MemProofs.v"], families=[Dmn()], rule=LOG_RULE, trusted_base=MEM_TB,
+    assumptions=DMN_ASSUME + ["AtomicU8::fetch_or is atomic (platform)"])
 reg(id="BE-DEV",
     props="Props/C20.v",
     families=[Be()],
